@@ -4,6 +4,9 @@
 // compiled only under the build tag "verif").
 package connection
 
+// Every function under contract in this package also serves the properties that depend on the whole package.
+//@ package-props C16
+
 // The address table is only touched under Manager.mu. Every entry is a record filed
 // under its own address, and every record of this manager that is alive - its dial
 // has not failed and its last reference has not been released - is the entry filed
